@@ -23,6 +23,10 @@ CLAIMS = {
          "Pool geometries (L,page) in {(56,64),(60,62),(62,66),(64,64),(120,124),(0,3)}; quick uses the 4- and 8-block pools. Lifetimes checked as time.Duration values (wire division by 1e9 is out of solver reach). Clock assumption T1.", "5.2, 6.8"),
  "C09": ("Same step harness: a request for exactly a held prefix, or a hint-less IA_PD (no IAPrefix / nil prefix), from a client that holds leases is answered with the held prefix, consumes no block (bitmap unchanged) and records nothing new; every delegated prefix is present in the client's record afterwards however many were delegated; known leases are kept and their expiry never moves backwards.",
          "Same bounds as C08.", "5.2, 6.9"),
+ "C02": ("One range.PluginState.Handler4 step (real IPv4 bitmap allocator underneath, database/sql replaced by a table model) from an arbitrary state satisfying the plugin invariant: symbolic range start, symbolic bitmap (arbitrary superset of the modelled bindings), optional binding of the requesting client (4- or 16-byte stored form), one binding of another client, chaddr of length 0..16 with symbolic bytes, hostname option, DISCOVER/REQUEST, symbolic clock. Asserted: address in range; equals the client's existing address; differs from the other client's; option 51 = configured lease time; refusal only when unknown client and every bit set, changing nothing; known clients served when full; invariant and store row re-established.",
+         "Ranges of 2..65 (quick) / up to 256 (thorough) addresses inside one /24; start's high octets symbolic within a decimal-digit class. Store model in harness/range/dbmodel.go (validated natively against the real SQLite on every replay). Concurrency via C16's lock discipline.", "5.2, 6.2"),
+ "C03": ("Same step harness (store row = binding, written before return, stored expiry >= end of the promised lease) plus: the real loadRecords run on the store the real saveIPAddress wrote (bindings restored exactly, nothing lost/duplicated), the hardware-address text for every length 0..16 and all byte values through the real loader, and the address text for all IPv4 addresses (81 digit-count classes) through net.IP.String / net.ParseIP.",
+         "SQLite/cgo itself is not encoded (file format, journaling, mid-write crash states): crash points are request boundaries; DB write faults are outside the quantifier. NUMERIC affinity modelled for the texts the plugin writes and validated natively.", "6.3"),
 }
 props=[json.loads(l) for l in open('/verif/properties.jsonl')]
 NA = {}
